@@ -159,7 +159,8 @@ struct Capture
   unsigned long outCount, errCount;
   unsigned outCrc, errCrc;
   bool keep; // keep the bytes (small outputs) or only count + crc
-  Capture(bool keep) : outCount(0), errCount(0), outCrc(0), errCrc(0), keep(keep) {}
+  bool firstLineDone;
+  Capture(bool keep) : outCount(0), errCount(0), outCrc(0), errCrc(0), keep(keep), firstLineDone(false) {}
   void add(uint stream, const char* p, size_t n)
   {
     if(stream == Process::stdoutStream)
@@ -169,7 +170,6 @@ struct Capture
       {
         // the first line (`in=...`) is kept, the rest is digested
         size_t i = 0;
-        if(outCount == 0 && firstLineDone == false) {}
         for(; i < n && !firstLineDone; ++i)
         {
           if(p[i] == '\n') firstLineDone = true;
@@ -186,7 +186,6 @@ struct Capture
       errCount += n;
     }
   }
-  bool firstLineDone = false;
 };
 
 static int savedStdout = -1;
